@@ -207,6 +207,10 @@ type result struct {
 }
 
 func main() {
+	if vlib.IsChild() && len(os.Args) > 2 && os.Args[1] == "ifchild" {
+		ifChild() // timing in-flight layer (inflight.go)
+		return
+	}
 	if vlib.IsChild() && len(os.Args) > 2 && os.Args[1] == "ixchild" {
 		ixChild() // initial-EXEC layer, driver path (initexec_drv.go)
 		return
@@ -214,6 +218,7 @@ func main() {
 	// --replay <file>: re-execute exactly the (probe, pair) of a replay file
 	var rf replayFilter
 	var ixReplay *ixCase
+	var ifReplay *ifCase
 	ixReplayMode, ixReplayPath := "", ""
 	for i, a := range os.Args {
 		if a == "--replay" && i+1 < len(os.Args) {
@@ -233,17 +238,23 @@ func main() {
 						Phase string `json:"phase"`
 						Index int    `json:"index"`
 					} `json:"pair"`
-					Case *ixCase `json:"case"`
-					Mode string  `json:"mode"`
-					Path string  `json:"path"`
+					Case json.RawMessage `json:"case"`
+					Mode string          `json:"mode"`
+					Path string          `json:"path"`
 				} `json:"witness"`
 			}
 			if err := json.Unmarshal(b, &rp); err != nil {
 				fmt.Println("cannot parse replay file:", err)
 				os.Exit(2)
 			}
-			if rp.Witness.Case != nil && rp.Witness.Case.IX {
-				ixReplay, ixReplayMode, ixReplayPath = rp.Witness.Case, rp.Witness.Mode, rp.Witness.Path
+			if rp.Witness.Case != nil {
+				var xc ixCase
+				var fc ifCase
+				if json.Unmarshal(rp.Witness.Case, &xc) == nil && xc.IX {
+					ixReplay, ixReplayMode, ixReplayPath = &xc, rp.Witness.Mode, rp.Witness.Path
+				} else if json.Unmarshal(rp.Witness.Case, &fc) == nil && fc.IF {
+					ifReplay, ixReplayMode = &fc, rp.Witness.Mode
+				}
 			}
 			rf = replayFilter{true, rp.Witness.Probe.ID, rp.Witness.Pair.Phase, rp.Witness.Pair.Index}
 			os.Setenv("VERIF_SEED", fmt.Sprint(rp.Seed))
@@ -254,6 +265,16 @@ func main() {
 
 	log.SetOutput(io.Discard) // log.Panicf of the code under test prints before it panics
 	c := vlib.Start("C06")
+	if ifReplay != nil { // a case of the timing in-flight layer
+		runIfBatch(c, ifBatch{Timing: ixReplayMode == "timing", Cases: []*ifCase{ifReplay}})
+		ixCleanup()
+		fmt.Printf("[C06] replay of in-flight case %s (%s)\n", ifReplay.Name, ixReplayMode)
+		if c.NumNewViolations() > 0 {
+			os.Exit(1)
+		}
+		fmt.Println("[C06] replay: not reproduced (or a listed known finding)")
+		os.Exit(0)
+	}
 	if ixReplay != nil { // a case of the initial-EXEC layer
 		if strings.HasPrefix(ixReplayPath, "driver") {
 			runIxBatch(c, ixBatch{Timing: ixReplayMode == "timing", Cases: []*ixCase{ixReplay}})
@@ -277,6 +298,7 @@ func main() {
 		// the canonical battery first, so that its witnesses are the recorded ones
 		vlib.Parallel(nCanon, 0, func(i int) { runIxEmuDirect(c, ixEmu[i]) })
 		batches := ixDriverBatches(c)
+		ifb := ifBatches(c)
 		ixWG.Add(2)
 		go func() {
 			defer ixWG.Done()
@@ -284,13 +306,25 @@ func main() {
 		}()
 		go func() {
 			defer ixWG.Done()
-			vlib.Parallel(len(batches), 6, func(i int) { runIxBatch(c, batches[i]) })
+			// the in-flight layer's canonical battery (timing, emulation) first
+			vlib.Parallel(2, 2, func(i int) { runIfBatch(c, ifb[i]) })
+			vlib.Parallel(len(batches)+len(ifb)-2, 6, func(i int) {
+				if i < len(ifb)-2 {
+					runIfBatch(c, ifb[2+i])
+				} else {
+					runIxBatch(c, batches[i-(len(ifb)-2)])
+				}
+			})
 			ixCleanup()
 		}()
 	}
 	if os.Getenv("C06_ONLY_INITEXEC") != "" { // development aid
 		ixWG.Wait()
-		c.Finish(vlib.FinishOpts{Rule: "initial-EXEC layer alone (development aid)", MinCounters: ixMinCounters()})
+		mc := ixMinCounters()
+		for k, v := range ifMinCounters() {
+			mc[k] = v
+		}
+		c.Finish(vlib.FinishOpts{Rule: "initial-EXEC and in-flight layers alone (development aid)", MinCounters: mc})
 	}
 	if pf := os.Getenv("C06_CPUPROFILE"); pf != "" {
 		f, _ := os.Create(pf)
@@ -580,18 +614,21 @@ func main() {
 		for k, v := range ixMinCounters() {
 			minCounters[k] = v
 		}
+		for k, v := range ifMinCounters() {
+			minCounters[k] = v
+		}
 	}
 	c.Finish(vlib.FinishOpts{
 		Rule: "case = one execution of one decoded encoding of an implemented vector opcode on the real ALU under one (EXEC mask, lane permutation) pair " +
 			"(4 executions per pair: base, permuted, EXEC subset, other lanes scrambled); distinct_nontrivial = distinct (arch, format, opcode) " +
-			"exercised with at least one partial mask (neither 0 nor all ones) and at least one non-identity permutation. " + ixRule,
+			"exercised with at least one partial mask (neither 0 nor all ones) and at least one non-identity permutation. " + ixRule + ". " + ifRule,
 		Assumptions: []string{
 			"state handed to the ALU = real emu.Wavefront wrapped only to supply Inst()/PID() (the compute unit sets these through unexported fields)",
 			"encodings come from vlib/gcnasm and pass through the real insts.Disassembler (IsCDNA3 set for the cdna3 ALU as the emulation GPU builder does)",
 			"inactive lanes of a compare / carry-out read 0 in the written mask (GCN3 ISA 3.9 'VCC is always fully written'); other lane masks must not change for inactive lanes",
 			"LDS reads cannot be observed directly (the ALU indexes a byte slice): reads from another lane's LDS region are caught through equivariance and the scramble relation, writes through the region / canary comparison",
 			"implemented = at least one encoding of the opcode number runs to completion under one of five fixed EXEC masks; a handler that panics on all of them is listed, not judged",
-			ixAssumption1, ixAssumption2,
+			ixAssumption1, ixAssumption2, ifAssumption,
 		},
 		MinNontrivial: 250,
 		MinCounters:   minCounters,
